@@ -85,6 +85,10 @@ def rule_evaluator(fx, rep, iso):
                     fr.storev(t['dest'], Agg([Ref(v.root, list(v.proj)), Ref(v.root, list(v.proj) + [['off', k.v]])]))
                     return True
                 return False
+            if nm == 'zero' and c.get('trait') == 'CurveProjective' and not args:
+                # the identity, as a value of its own (Z = 0 has no representation among the monomials)
+                fr.storev(t['dest'], Agg([exp.TOP, exp.TOP, exp.TOP], ('identity',)))
+                return True
             import stdmodel
             return stdmodel.result_transfer(I, fr, t, c, pth)
         import inline as INL
@@ -100,8 +104,13 @@ def rule_evaluator(fx, rep, iso):
             continue
         rep.sites(I.call_sites)
         bad = []
+        general_z = []
+        identity_paths = []
         for pth, ret, outs in res:
             out = outs.get(1)
+            if isinstance(out, Agg) and out.kind == ('identity',):
+                identity_paths.append(pth)
+                continue
             if not (isinstance(out, Agg) and len(out.items) == 3):
                 bad.append('point not written back (%r)' % (out,))
                 continue
@@ -130,6 +139,7 @@ def rule_evaluator(fx, rep, iso):
                 continue
             xa = X.add(Z.scale(-2))
             ya = Y.add(Z.scale(-3))
+            general_z.append(Z)
 
             def resolve(l):
                 """monomial over interned sums -> (list of (Sum, exponent))"""
@@ -156,6 +166,30 @@ def rule_evaluator(fx, rep, iso):
                 why = homogeneous_pair(num, den, ni, di, lens, extra_num, extra_den, zmod)
                 if why:
                     bad.append('%s%s-coordinate: %s' % ('[%s] ' % ', '.join(conds) if conds else '', which, why))
+        # a path that writes the identity outright: sound exactly when it is taken under a zero test of a factor of the Z
+        # that the formula path would write (Z = 0 is the identity whatever X and Y are)
+        for pth in identity_paths:
+            tested = []
+            for lab, v in pth.labels:
+                x, neg = lab, False
+                while isinstance(x, tuple) and x and x[0] == 'not':
+                    neg = not neg
+                    x = x[1]
+                if isinstance(x, tuple) and x and x[0] == 'is_zero' and ((v != 0) != neg):
+                    tv = x[1]
+                    tv = I._intern(tv) if not isinstance(tv, Lin) else tv
+                    if isinstance(tv, Lin) and tv.t:
+                        tested.append(tv)
+            okid = False
+            for tv in tested:
+                for Zg in general_z:
+                    rest = Zg.add(tv.neg())
+                    if all(k >= 0 for k in rest.t.values()) and all(k > 0 for k in tv.t.values()):
+                        okid = True
+            if not okid:
+                bad.append('a path returns the identity outright without being taken under a zero test of (a factor of) the Z coordinate of the formula (tests: %r)' % (tested,))
+        if not general_z:
+            bad.append('no path computes the image by the formula')
         rep.check(not bad, 'HORNER', inst,
                   'on all %d paths: X/Z^2 = XNUM(x/z^2)/XDEN(x/z^2) and Y/Z^3 = (y/z^3) YNUM(x/z^2)/YDEN(x/z^2) as homogenised sums over the table coefficients (every coefficient with its own power of x and the complementary power of z)' % len(res),
                   '; '.join(bad[:3]), fx.fn(ev)['span'], construct=ev)
